@@ -19,6 +19,124 @@ def run_cli(args, cwd, env_extra=None):
     env.update(env_extra or {})
     return subprocess.run([sys.executable, "-m", "mammoth.cli"] + args, cwd=cwd, capture_output=True, env=env, timeout=120)
 
+# ---------------------------------------------------------------------------
+# bulk: the size and the script of what is written.  The documents of the shared generators are a few hundred bytes; a command
+# that buffers, chunks, pages or re-encodes its output behaves the same on those whatever it does.  A bulk case adds some
+# thousand to some hundred thousand characters of text in one to three scripts (1-, 2-, 3- and 4-byte UTF-8 sequences, code
+# points at the length boundaries), optionally hundreds of warnings (standard error), a style-map file of a thousand lines,
+# large pictures, and can pad the document so that the byte (or character) length of the value falls exactly on / next to a
+# multiple of a power of two.
+# ---------------------------------------------------------------------------
+
+SCRIPTS = {
+    "ascii": [(0x61, 0x7A), (0x41, 0x5A), (0x30, 0x39)],
+    "latin": [(0xC0, 0xD6), (0xD8, 0xF6), (0x100, 0x17F)],
+    "cyrillic": [(0x410, 0x44F)],
+    "greek": [(0x391, 0x3A1), (0x3B1, 0x3C9)],
+    "cjk": [(0x4E00, 0x9FA5), (0x3041, 0x3096), (0xAC00, 0xD7A3)],
+    "astral": [(0x1F300, 0x1F64F), (0x20000, 0x2A6D6), (0x1D400, 0x1D454)],
+    "edges": [(0x7E, 0x7E), (0x80, 0x80), (0x7FF, 0x800), (0xD7FF, 0xD7FF), (0xE000, 0xE000), (0xFFFD, 0xFFFD), (0x10000, 0x10000), (0x10FFFF, 0x10FFFF), (0x301, 0x301), (0x2028, 0x2029)],
+    "markup": [(0x26, 0x26), (0x3C, 0x3C), (0x3E, 0x3E), (0x22, 0x22), (0x2A, 0x2A), (0x5C, 0x5C), (0x5F, 0x5F), (0xE9, 0xE9)],
+}
+SIZES = [2000, 6000, 12000, 16000, 17000, 24000, 33000, 50000, 70000, 140000]
+
+
+def bulk_plan(rng):
+    scripts = [rng.choice(["latin", "cyrillic", "greek", "cjk", "cjk", "astral", "astral", "edges", "ascii", "markup"]) for _ in range(rng.randint(1, 3))]
+    plan = {"scripts": scripts, "chars": int(rng.choice(SIZES) * rng.uniform(0.8, 1.3)), "para": rng.choice([40, 300, 300, 3000, 30000]),
+            "warnings": rng.random() < 0.3, "big_style_map": rng.random() < 0.25, "big_images": rng.random() < 0.4, "bold": rng.random() < 0.3, "align": None}
+    if rng.random() < 0.4:
+        plan["align"] = {"unit": rng.choice(["bytes", "bytes", "chars"]), "multiple_of": rng.choice([4096, 8192, 16384, 16384, 32768, 65536]), "delta": rng.choice([-1, 0, 1])}
+    return plan
+
+
+def bulk_words(rng, scripts, n=60):
+    words = []
+    for _ in range(n):
+        ranges = SCRIPTS[rng.choice(scripts)]
+        w = []
+        for _ in range(rng.randint(1, 12)):
+            lo, hi = rng.choice(ranges)
+            w.append(chr(rng.randint(lo, hi)))
+        words.append("".join(w))
+    return words
+
+
+def add_bulk(rng, parts, plan):
+    """insert the bulk paragraphs (one block, at a random place of the body); the last of them is the ASCII padding paragraph"""
+    import copy
+    from gen_docx import el as _el
+    parts = copy.deepcopy(parts)
+    words = bulk_words(rng, plan["scripts"])
+    paras, total, k = [], 0, 0
+    while total < plan["chars"] and len(paras) < 1500:
+        want = min(plan["chars"] - total, rng.randint(1, plan["para"]))
+        t = []
+        have = 0
+        while have < want:
+            w = rng.choice(words)
+            t.append(w)
+            have += len(w) + 1
+        text = " ".join(t)[:want]
+        total += len(text)
+        ppr = []
+        if plan["warnings"] and k < 400 and rng.random() < 0.5:
+            k += 1
+            ppr = [_el("w:pPr", [], [_el("w:pStyle", [("w:val", "%s%d" % (rng.choice(words), k))])])]
+        rpr = [_el("w:rPr", [], [_el("w:b")])] if plan["bold"] and rng.random() < 0.3 else []
+        paras.append(_el("w:p", [], ppr + [_el("w:r", [], rpr + [_el("w:t", [], [text])])]))
+    paras.append(_el("w:p", [], [_el("w:r", [], [_el("w:t", [], ["x"])])]))
+    for p_ in parts:
+        if p_["name"] == "word/document.xml":
+            body = p_["xml"][2][0]
+            at = rng.randint(0, len(body[2]))
+            body[2][at:at] = paras
+    return parts, paras[-1][2][0][2][0][2]
+
+
+def bulk_style_map(rng, plan, sm):
+    """a style-map file of about a thousand lines (rules, comments, unreadable lines in the scripts of the case); the small map, if any, comes last"""
+    words = bulk_words(rng, plan["scripts"], 20)
+    lines = []
+    for i in range(rng.choice([300, 1200])):
+        r = rng.random()
+        if r < 0.4:
+            lines.append("# " + " ".join(rng.choice(words) for _ in range(rng.randint(1, 8))))
+        elif r < 0.8:
+            lines.append("p.S%d => h%d.c%d:fresh" % (i, i % 6 + 1, i))
+        else:
+            lines.append("p.%s%d => h1" % (rng.choice(words), i))
+    return "\n".join(lines) + "\n" + (sm if sm is not None else "p => h4")
+
+
+def bulk_align(mammoth, plan, parts, pad_text, inpath, sm_path, fmt):
+    """pad the last bulk paragraph with ASCII so that the length of the value the library returns (in bytes or in characters) is
+    delta away from a multiple of the chosen power of two; returns the new archive (None when the library raised)"""
+    al = plan["align"]
+    sm_text = None
+    if sm_path is not None:
+        with open(sm_path, encoding="utf-8") as f:
+            sm_text = f.read()
+    try:
+        with open(inpath, "rb") as f:
+            v = mammoth.convert(f, style_map=sm_text, output_format=fmt).value
+    except Exception:  # noqa
+        return None
+    size = len(v.encode("utf-8")) if al["unit"] == "bytes" else len(v)
+    pad_text[0] = "x" * (1 + (al["delta"] - size) % al["multiple_of"])
+    data = D.build_docx(parts)
+    with open(inpath, "wb") as f:
+        f.write(data)
+    return data
+
+
+def first_difference(a, b):
+    n = min(len(a), len(b))
+    for k in range(n):
+        if a[k] != b[k]:
+            return k
+    return n
+
 
 def run(out, tier, seed, model_ok):
     import mammoth
@@ -32,8 +150,11 @@ def run(out, tier, seed, model_ok):
         d = os.path.join(base, "c%d" % i)
         os.makedirs(d)
         mode = rng.choice(["stdout", "path", "dir", "dir"])
+        bulk = bulk_plan(rng) if rng.random() < 0.3 else None
+        if bulk and rng.random() < 0.5:
+            mode = "stdout"
         if mode == "dir" or rng.random() < 0.4:
-            case = image_case(seed * 1000003 + i)
+            case = image_case(seed * 1000003 + i, big=bool(bulk and bulk["big_images"]))
             parts = case["parts"]
             # --output-dir needs a content type for every image (ImageWriter takes the subtype from it)
             for im in case["imgs"]:
@@ -76,6 +197,9 @@ def run(out, tier, seed, model_ok):
                     p_["xml"][2].append(["content-types:Override", [["PartName", "/no-such-picture.png"], ["ContentType", "image/png"]], []])
                 if p_["name"] == "word/_rels/document.xml.rels":
                     p_["xml"][2].append(_el("relationships:Relationship", [("Id", "rIdMissing"), ("Type", _REL + "image"), ("Target", "no-such-picture.png"), ("TargetMode", "External")]))
+        pad_text = None
+        if bulk:
+            parts, pad_text = add_bulk(rng, parts, bulk)
         data = D.build_docx(parts)
         name = rng.choice(["input.docx", "document", "a.b.docx", "my doc.docx", ".hidden", "ünï.docx"])
         inpath = os.path.join(d, name)
@@ -85,6 +209,8 @@ def run(out, tier, seed, model_ok):
         sm = None
         if rng.random() < 0.5:
             sm = rng.choice(["p => h3", "p[style-name='heading 1'] => h1.é\nr => span.x", "# c\n\np => div\x0cb => i", "p => section r => q", "nonsense line\nb => strong.big", "p =>p.a\r\np.Tip => aside"])
+        if bulk and bulk["big_style_map"]:
+            sm = bulk_style_map(rng, bulk, sm)
         args = [inpath]
         outdir = outpath = None
         if mode == "path":
@@ -101,6 +227,8 @@ def run(out, tier, seed, model_ok):
             with open(smpath, "w", encoding="utf-8", newline="") as f:
                 f.write(sm)
             args.append("--style-map=" + smpath)
+        if bulk and bulk["align"] and mode != "dir":
+            data = bulk_align(mammoth, bulk, parts, pad_text, inpath, os.path.join(d, "style.map") if sm is not None else None, fmt) or data
         p = run_cli(args, d)
         # what the library returns for the same file, style-map file and output format
         sm_text = None
@@ -121,6 +249,13 @@ def run(out, tier, seed, model_ok):
             lib = mammoth.convert(f, **kw)
         lib_value, lib_msgs = lib.value, [m.message for m in lib.messages]
         case_rec = {"kind": "cli", "args": [a.replace(d, "<dir>") for a in args], "style_map": sm, "docx_hex": data.hex() if len(data) < 40000 else None, "name": name}
+        if bulk:
+            if case_rec["docx_hex"] is None:
+                packed = D.build_docx(parts, compression="deflate")      # the same package, deflated, so that the replay file holds the document
+                case_rec["docx_hex"] = packed.hex() if len(packed) < 400000 else None
+            case_rec.update({"case_seed": seed * 1000003 + i, "mode": mode, "bulk": bulk, "value_chars": len(lib_value), "value_bytes": len(lib_value.encode("utf-8")),
+                             "note": "bulk case: ./check C20 with VERIF_SEED=%d regenerates this document (case %d of the run)" % (seed, i)})
+            out.extra.setdefault("c20_bulk", []).append([mode, "+".join(bulk["scripts"]), len(lib_value), len(lib_value.encode("utf-8")), len(lib_msgs)])
         out.count(key="cli-%d-%d" % (seed, i), nontrivial=mode == "dir" and bool(imgs))
         probs = []
         if p.returncode != 0:
@@ -130,10 +265,13 @@ def run(out, tier, seed, model_ok):
             if mode == "stdout":
                 if p.stdout != want:
                     probs.append("standard output is not the UTF-8 encoding of the library's value")
+                    probs.append("standard output holds %d bytes, the value encodes to %d bytes (%d characters); first difference at byte %d" % (len(p.stdout), len(want), len(lib_value), first_difference(p.stdout, want)))
             elif mode == "path":
                 got = open(outpath, "rb").read() if os.path.exists(outpath) else None
                 if got != want:
                     probs.append("the output file does not hold the UTF-8 encoding of the library's value")
+                    if got is not None:
+                        probs.append("the output file holds %d bytes, the value encodes to %d bytes (%d characters); first difference at byte %d" % (len(got), len(want), len(lib_value), first_difference(got, want)))
                 if p.stdout:
                     probs.append("something was written to standard output although an output path was given")
             else:
@@ -201,3 +339,49 @@ def replay(out, payload, model_ok):
     out.count("replay", True)
     out.rule = "replay (re-run ./check C20; the case records the arguments, the style map and the document)"
     out.sample(payload["case"].get("args"))
+    case = payload["case"]
+    if not case.get("docx_hex"):
+        return
+    # the recorded document, style map and arguments once more: bytes written vs the UTF-8 of the library's value
+    import mammoth
+    d = os.path.join(WORK, "c20_replay_%d" % os.getpid())
+    shutil.rmtree(d, ignore_errors=True)
+    os.makedirs(os.path.join(d, "outdir"))
+    with open(os.path.join(d, case["name"]), "wb") as f:
+        f.write(bytes.fromhex(case["docx_hex"]))
+    sm_text = None
+    if case.get("style_map") is not None:
+        with open(os.path.join(d, "style.map"), "w", encoding="utf-8", newline="") as f:
+            f.write(case["style_map"])
+        with open(os.path.join(d, "style.map"), encoding="utf-8") as f:
+            sm_text = f.read()
+    args = [a.replace("<dir>", d) for a in case["args"]]
+    fmt = ([a.split("=", 1)[1] for a in args if a.startswith("--output-format=")] or [None])[0]
+    outdir = ([a.split("=", 1)[1] for a in args if a.startswith("--output-dir=")] or [None])[0]
+    outpath = args[1] if len(args) > 1 and not args[1].startswith("--") else None
+    p = run_cli(args, d)
+    seen = []
+
+    def conv(image):
+        seen.append(image.content_type)
+        return {"src": "%d.%s" % (len(seen), image.content_type.partition("/")[2])}
+    kw = dict(style_map=sm_text, output_format=fmt)
+    if outdir:
+        kw["convert_image"] = mammoth.images.img_element(conv)
+    with open(os.path.join(d, case["name"]), "rb") as f:
+        lib = mammoth.convert(f, **kw)
+    want = lib.value.encode("utf-8")
+    if outdir:
+        target = os.path.join(outdir, os.path.splitext(case["name"])[0] + ".html")
+        got = open(target, "rb").read() if os.path.exists(target) else None
+    elif outpath:
+        got = open(outpath, "rb").read() if os.path.exists(outpath) else None
+    else:
+        got = p.stdout
+    if p.returncode != 0:
+        out.violation("the command exited with status %d" % p.returncode, case)
+    elif got != want:
+        out.violation("the bytes written (%s) are not the UTF-8 encoding of the library's value (%d bytes)" % ("nothing" if got is None else "%d bytes" % len(got), len(want)), case)
+    elif p.stderr.decode("utf-8") != "".join(m.message + "\n" for m in lib.messages):
+        out.violation("standard error is not the library's messages, one per line", case)
+    shutil.rmtree(d, ignore_errors=True)
